@@ -349,7 +349,19 @@ def user_jump(elapsed_temporal_unit, init_impact_stock, recovery_tau):
     return 0.6 * init_impact_stock * max(0.0, 1.0 - elapsed_temporal_unit / recovery_tau)
 
 
-USER_CURVES = {"user_swapped": user_swapped, "user_kwonly": user_kwonly, "user_fixed_speed": user_fixed_speed, "user_jump": user_jump}
+def user_init_first(init_impact_stock, elapsed_temporal_unit, recovery_tau):
+    """a user-supplied recovery function with the documented parameter names in another order (the initial damage first):
+    linear recovery over 2 recovery_tau"""
+    return init_impact_stock * max(0.0, 1.0 - elapsed_temporal_unit / (2.0 * recovery_tau))
+
+
+def user_allkw(*, init_impact_stock, elapsed_temporal_unit, recovery_tau):
+    """a user-supplied recovery function whose three documented parameters are all keyword-only: the damage is divided by
+    1 + elapsed / recovery_tau"""
+    return init_impact_stock / (1.0 + elapsed_temporal_unit / recovery_tau)
+
+
+USER_CURVES = {"user_init_first": user_init_first, "user_allkw": user_allkw, "user_swapped": user_swapped, "user_kwonly": user_kwonly, "user_fixed_speed": user_fixed_speed, "user_jump": user_jump}
 
 
 def curve_arg(name):
@@ -377,7 +389,7 @@ def gen_event(rng: random.Random, tb: dict, cfg: dict, T: int, etype=None, capit
     if etype == "arbitrary":
         ev["impact"] = {_key(r, s): rng.choice([0.1, 0.3, 0.5, 0.9, 1.0, 0.05]) for r, s in inds}
         ev["recovery_tau"] = rng.choice([1, 2, 3, 5, 10])
-        ev["curve"] = rng.choice(["linear", "linear", "convexe", "convexe noscale", "concave", "user_swapped", "user_kwonly", "user_fixed_speed", "user_jump"])
+        ev["curve"] = rng.choice(["linear", "linear", "convexe", "convexe noscale", "concave", "user_swapped", "user_kwonly", "user_fixed_speed", "user_jump", "user_init_first", "user_allkw"])
         return ev
     # (factors that are not powers of ten are documented too: currency conversion)
     emf = rng.choice([cfg["monetary_factor"], cfg["monetary_factor"], 1, 10**3, 10**6, 800, 2_500_000])
@@ -433,7 +445,7 @@ def gen_event(rng: random.Random, tb: dict, cfg: dict, T: int, etype=None, capit
         ev["shares_series"] = rng.random() < 0.35
     else:
         ev["recovery_tau"] = rng.choice([1, 2, 3, 5, 10, 30])
-        ev["curve"] = rng.choice(["linear", "linear", "convexe", "convexe noscale", "concave", "user_swapped", "user_kwonly", "user_fixed_speed", "user_jump"])
+        ev["curve"] = rng.choice(["linear", "linear", "convexe", "convexe noscale", "concave", "user_swapped", "user_kwonly", "user_fixed_speed", "user_jump", "user_init_first", "user_allkw"])
     return ev
 
 
